@@ -16,8 +16,8 @@ where
     U: User,
     E: Engine<U>,
 {
-    let uwalk = state.smap_ref().walk(u).clone();
-    let vwalk = state.smap_ref().walk(v).clone();
+    let uwalk = walk_term_object(&state, u);
+    let vwalk = walk_term_object(&state, v);
     match (uwalk.as_ref(), vwalk.as_ref()) {
         (LTermInner::Var(uvar, _), LTermInner::Var(vvar, _)) if uvar == vvar => {
             // If both terms are variables that walk to the same variable id, then the current
@@ -64,6 +64,30 @@ where
             unify_rec_compound(state, extension, ucf.as_ref(), vcf.as_ref())
         }
         _ => Err(()),
+    }
+}
+
+/// Walks `t`, looking through compound objects that are themselves terms.
+///
+/// `Some(x)` of an `Option` and values of compound-typed variables are stored as a compound
+/// whose object *is* a term and has no children of its own; the term they stand for is what
+/// must be unified (otherwise `Some(1)` unifies with `Some(2)` and `Some(x) == Some(1)`
+/// leaves `x` unbound).
+fn walk_term_object<U, E>(state: &State<U, E>, t: &LTerm<U, E>) -> LTerm<U, E>
+where
+    U: User,
+    E: Engine<U>,
+{
+    let mut walked = state.smap_ref().walk(t).clone();
+    loop {
+        let inner = match walked.as_ref() {
+            LTermInner::Compound(object) => match object.as_term() {
+                Some(term) => state.smap_ref().walk(term).clone(),
+                None => return walked,
+            },
+            _ => return walked,
+        };
+        walked = inner;
     }
 }
 
